@@ -9,12 +9,13 @@ namespace KrroodVerif.Drive.SG
 open KrroodVerif KrroodVerif.SG
 
 /-- classes: 0 Thing, 1 Org(Thing), 2 Emp(Thing), 3 Mgr(Emp), 4 A(Thing), 5 B(A), 6 C(A), 7 D(B, C),
-8 Chair(Role[Emp], Thing) (a role whose role taker is an Emp; its instances are plain instances for the model);
+8 Chair(Role[Emp], Thing) (a role whose role taker is an Emp; its instances are plain instances for the model),
+9 Bag(Thing) (defines `__len__`: an instance may be falsy — liveness is about references, not truthiness);
 fields: 0 Emp.works_for (WorksFor ⊂ MemberOf), 1 Emp.member_of (MemberOf, inverse Member), 2 Org.members (Member,
 inverse MemberOf), 3 Org.sub_of (SubOf, transitive), 4 Thing.knows, 5 Thing.likes (plain dataclass fields) -/
 def schema : Schema where
   subs := fun c => match c with
-    | 0 => [1, 2, 4, 8] | 2 => [3] | 4 => [5, 6] | 5 => [7] | 6 => [7] | _ => []
+    | 0 => [1, 2, 4, 8, 9] | 2 => [3] | 4 => [5, 6] | 5 => [7] | 6 => [7] | _ => []
   depth := 4
   kind := fun f => match f with
     | 0 => .scalar | 1 => .list | 2 => .set | 3 => .list | _ => .plain
@@ -38,6 +39,14 @@ def parseDefs (xs : List Sexp) : List (Cls × Cls) :=
     | .list [.atom "defclass", c, p] => do pure ((← c.asNat?), (← p.asNat?))
     | _ => none
 
+/-- `(relchurn o n c f t)`: `n` instances of class `c`, labelled `o … o+n-1`, created back to back; each asserts field
+`f` towards instance `t` (a descriptor-managed field, or directly for the plain fields 4, 5); all but the LAST are
+discarded at once (no gc, no sweep): the last one sits at a recycled address next to dead, unswept, related ones -/
+def relchurnOps (o n c f t : Nat) : List Op :=
+  (List.range n).flatMap fun i =>
+    let a : Op := if f == 4 || f == 5 then .rel f (o + i) t else .set f (o + i) t
+    if i + 1 == n then [.new (o + i) c 0, a] else [.new (o + i) c 0, a, .drop (o + i)]
+
 /-- `(churn o n c)`: `n` instances of class `c`, labelled `o … o+n-1`, each created and discarded at once -/
 def churnOps (o n c : Nat) : List Op :=
   (List.range n).flatMap fun i => [.new (o + i) c 0, .drop (o + i)]
@@ -50,6 +59,11 @@ def parseOp (pos : Nat) : Sexp → Option (List Op)
   | .list [.atom "qstart", _, _] => some []
   | .list [.atom "qnext", _] => some []
   | .list [.atom "churn", o, n, c] => do pure (churnOps (← o.asNat?) (← n.asNat?) (← c.asNat?))
+  | .list [.atom "relchurn", o, n, c, f, t] => do
+      pure (relchurnOps (← o.asNat?) (← n.asNat?) (← c.asNat?) (← f.asNat?) (← t.asNat?))
+  -- the content of a Bag (its truthiness) means nothing to the registry
+  | .list [.atom "fill", _] => some []
+  | .list [.atom "empty", _] => some []
   -- a role instance (class 8) is a plain instance for the model; the role-taker inference of `head_of` is not
   -- modelled: these operations only occur in query-free C20 loops, where what they record cannot be observed
   | .list [.atom "newrole", o, _] => do pure [.new (← o.asNat?) 8 0]
